@@ -576,7 +576,11 @@ func finish(chk *Check, tier string, seed int, start time.Time, nspecs int, a *a
 			continue
 		}
 		seen[v.Class] = true
-		if nViolLines >= 10 {
+		maxLines := 10
+		if v, err := strconv.Atoi(os.Getenv("VERIF_MAX_VIOL")); err == nil && v > 0 {
+			maxLines = v
+		}
+		if nViolLines >= maxLines {
 			continue
 		}
 		// re-execute to make sure the violation is reproducible before it is believed
